@@ -42,6 +42,13 @@ func doReplay(drv *Driver, op string) {
 func init() { props["C16"] = propC16; props["C14"] = propC14; props["C09"] = propC09 }
 
 func (c *Ctx) lstr(class string, i int64) string {
+	if len(c.askedLstr) < 4000 {
+		c.askedLstr = append(c.askedLstr, i)
+	}
+	return c.lstrNoRecord(class, i)
+}
+
+func (c *Ctx) lstrNoRecord(class string, i int64) string {
 	op := fmt.Sprintf("lstr %d", i)
 	m, s := c.drv.Ask(op)
 	impl := implStr(i)
@@ -106,6 +113,20 @@ func propC16(c *Ctx) {
 			v = -v
 		}
 		c.lstr("random-int64", v)
+	}
+	// every value asked so far, asked AGAIN at the end, in the original order and reversed: String() must not
+	// remember (a memo of formatted values with a faulty eviction answers an early value with a later one's text)
+	for pass := 0; pass < 2; pass++ {
+		for i := range c.askedLstr {
+			v := c.askedLstr[i]
+			if pass == 1 {
+				v = c.askedLstr[len(c.askedLstr)-1-i]
+			}
+			if i > 400 && i%9 != 0 {
+				continue
+			}
+			c.lstrNoRecord("asked-again", v)
+		}
 	}
 	names := map[string]bool{}
 	for li, v := range langVals {
